@@ -983,7 +983,11 @@ func (m *Machine) timeIntrinsic(s *State, f *Frame, x *ssa.Call, name string, ar
 		tk := m.zero(x.Type().(*types.Pointer).Elem()).(StructV)
 		et := tk.f[0]
 		_ = et
-		tk.f[0] = Ptr{obj: s.alloc(ChanV{cap: 1, buf: []Value{m.zero(m.timeType(x))}})}
+		if m.timersOff {
+			tk.f[0] = Ptr{obj: s.alloc(ChanV{cap: 1})}
+		} else {
+			tk.f[0] = Ptr{obj: s.alloc(ChanV{cap: 1, buf: []Value{m.zero(m.timeType(x))}})}
+		}
 		f.env[x] = Ptr{obj: s.alloc(tk)}
 		return nil, true
 	case "time.NewTicker":
@@ -992,6 +996,11 @@ func (m *Machine) timeIntrinsic(s *State, f *Frame, x *ssa.Call, name string, ar
 		tk := m.zero(x.Type().(*types.Pointer).Elem()).(StructV)
 		tk.f[0] = Ptr{obj: s.alloc(ChanV{cap: 1})}
 		f.env[x] = Ptr{obj: s.alloc(tk)}
+		return nil, true
+	case "(*time.Timer).Reset", "(*time.Ticker).Reset":
+		if x != nil && name == "(*time.Timer).Reset" {
+			f.env[x] = Sc{c.Bool(true)}
+		}
 		return nil, true
 	case "(*time.Ticker).Stop", "(*time.Timer).Stop":
 		if x != nil && name == "(*time.Timer).Stop" {
